@@ -177,7 +177,7 @@ Example C15_nonvacuous :
   /\ map (fun s => (sid s, parent s)) (hist_of 1000 0 ops_ex) = [(1, Some (-1)); (2, Some 1); (3, Some 2); (4, Some 3)]
   /\ map (fun s => (sid s, parent s, seq s)) (snaps (md (replay 1000 0 ops_ex))) = [(1, Some (-1), 1); (4, Some 1, 4)]
   /\ slog (md (replay 1000 0 ops_ex)) = [(1000, 1); (1001, 4)]
-  /\ mlog (md (replay 1000 0 ops_ex)) = [(1000, 5); (1000, 6)]
+  /\ mlog (md (replay 1000 0 ops_ex)) = [(1005, 5); (1006, 6)]
   /\ map (map ekey) (match snaps (md (replay 1000 0 ops_ex)) with [_; s4] => mlist s4 | _ => [] end)
      = [[((1, 3), 3, 3)]; [((0, 4), 4, 4)]]
   /\ nondecreasing_ts (firstn 2 ops_ex) /\ ~ nondecreasing_ts ops_ex
